@@ -205,7 +205,6 @@ void vrt_count (const char *key) {
 }
 static void dump_counters (void) {
 	int i;
-	if (quiet) return;
 	printf ("VRT-STATS seed=%ld steps=%ld threads=%d strategy=%d switch=%d clockp=%d plain=%ld", seed, steps, nthr, strategy, switch_pct, clock_pct, nplain);
 	for (i = 0; i < ncounters; i++) printf (" %s=%ld", counters[i].key, counters[i].n);
 	printf ("\n");
